@@ -214,7 +214,7 @@ func main() {
 		"every schedule is an execution of the real regenerated code: traces_validated_against_impl = schedules; there is no separate model",
 		"the free-running -race pass is sampling and only reported (race_pass); weak-memory effects and net/http's own goroutines are outside the exploration",
 		"regexp2's match-timeout clock goroutine runs outside the scheduler; it only writes an atomic time stamp")
-	r.Finish("threads x calls: quick = 2 logical threads x 1 call each, every multiset of 2 calls from a menu of 21 (same operation with different values, validating vs failing requests through the pooled error encoder, fallback-regex and RE2 patterns, form body, two streaming bodies), preemption bound 2; thorough = additionally 3 threads x 1 call (bound 2) and 2 threads x 2 calls (bound 2). Oracle per schedule: every call's (handler-received arguments, returned value or error) equals the result of the same call run alone; no deadlock. Determinism of the harness is proven on every shard by replaying the first and last schedule twice.")
+	r.Finish("threads x calls: quick = 2 logical threads x 1 call each, every multiset of 2 calls from a menu of 21 (same operation with different values, validating vs failing requests through the pooled error encoder, fallback-regex and RE2 patterns, form body, two streaming bodies), preemption bound 2; thorough = additionally 3 threads x 1 call (bound 2; every multiset of 3 calls of a 12-call core of one call per mechanism, every other call next to two calls of a four-call sub-core), 2 threads x 2 calls over the core operations (bound 2) and every pair at bound 3. Oracle per schedule: every call's (handler-received arguments, returned value or error) equals the result of the same call run alone; no deadlock. Determinism of the harness is proven on every shard by replaying the first and last schedule twice.")
 }
 
 func firstN(s string, n int) string {
